@@ -514,7 +514,8 @@ var variantOpts = []struct {
 	{"dups", EncOpts{Duplicates: true}},
 	{"mapshapes", EncOpts{MapShapes: true}},
 	{"unknown", EncOpts{Unknown: true}},
-	{"all", EncOpts{Permute: true, FlipPacking: true, Duplicates: true, MapShapes: true, Unknown: true}},
+	{"longkeys", EncOpts{LongKeys: true, Unknown: true}},
+	{"all", EncOpts{Permute: true, FlipPacking: true, Duplicates: true, MapShapes: true, Unknown: true, LongKeys: true}},
 }
 
 // FamUnmarshal: legal encoding variants of value trees (C06, C07).
